@@ -375,7 +375,10 @@ class World:
             ref = rng.choice(["nosuchtag", dg("sha256", b"nothing"), "sha256:zz", "UPPER", TAGS[4]])
         acc = rng.choice([None, (MT_OCI_M,), (MT_OCI_I,), (MT_OCI_M + ", " + MT_OCI_I,), (MT_DOCK_M, MT_OCI_M),
                           ("*/*",), (), ("Application/VND.oci.image.manifest.v1+json; q=0.5",),
-                          (MT_OCI_M, MT_OCI_I, MT_DOCK_M, MT_DOCK_I)])
+                          (MT_OCI_M, MT_OCI_I, MT_DOCK_M, MT_DOCK_I),
+                          # one header line, separators without a space, parameters, stray white space
+                          (MT_OCI_M + "," + MT_OCI_I,), (MT_OCI_I + ";q=0.9," + MT_OCI_M + ";q=0.8",), ("text/plain," + MT_DOCK_M + "," + MT_OCI_M,),
+                          (" " + MT_OCI_I + " ,\t" + MT_OCI_M,), (MT_DOCK_I + "," + MT_DOCK_M + "," + MT_OCI_I + "," + MT_OCI_M,)])
         kw = {}
         if acc is not None:
             kw["accept"] = acc
@@ -471,6 +474,32 @@ class World:
         if rng.random() < 0.4:
             self.add(manifest_delete(repo, dg("sha256", body)))
             self.add(tag_list(repo, None, None))
+
+    def repush(self):
+        """a manifest whose bytes are already stored (pushed and deleted by digest, or uploaded through the blob API first)
+        is pushed by digest again and read back"""
+        rng = self.rng
+        repo = self.repo()
+        if rng.random() < 0.5 and self.manifests[repo]:
+            body, mt = rng.choice(self.manifests[repo])
+            d = dg("sha256", body)
+            if rng.random() < 0.7:
+                self.add(manifest_delete(repo, d))
+                if rng.random() < 0.3:
+                    self.add(manifest_get(repo, d))
+        else:
+            cfg = b"{}"
+            self.ensure_blob(repo, cfg)
+            body = image_manifest(desc(MT_CFG, cfg), [], annotations={"repush": str(len(self.steps))})
+            mt = MT_OCI_M
+            d = dg("sha256", body)
+            self.contents.add(body)
+            self.add(upload_post(repo, digest=d, body=body))
+        self.add(manifest_put(repo, d if rng.random() < 0.8 else rng.choice(TAGS[:3]), body, ctype=mt))
+        self.add(manifest_get(repo, d))
+        self.add(manifest_get(repo, d, head=True))
+        if (body, mt) not in self.manifests[repo]:
+            self.manifests[repo].append((body, mt))
 
     def delete_blob(self):
         rng = self.rng
@@ -606,7 +635,8 @@ class World:
         p = self.profile
         weights = dict(blob=p["blob"] + p["chunked"], mount=p["mount"], image=p["image"], index=p["index"],
                        artifact=p["artifact"], mread=p["mread"], bread=p["bread"], tags=p["tags"], refs=p["refs"],
-                       mdel=p["mdel"], bdel=p["bdel"], sess=p["sess"], retag=p.get("retag", 0.3 if p["image"] > 0 else 0))
+                       mdel=p["mdel"], bdel=p["bdel"], sess=p["sess"], retag=p.get("retag", 0.3 if p["image"] > 0 else 0),
+                       repush=p.get("repush", 0.4 if p["image"] > 0 else 0))
         while len(self.steps) < nsteps:
             k = pick(self.rng, weights)
             if k == "blob":
@@ -632,6 +662,8 @@ class World:
                 self.delete_blob()
             elif k == "retag":
                 self.retag()
+            elif k == "repush":
+                self.repush()
             elif k == "sess":
                 if self.rng.random() < self.profile.get("interrupt", 0.15):
                     self.interrupted_upload()
